@@ -233,7 +233,13 @@ func (vc *VC) ghostCall(st *State, name string, args []Val, sig *types.Signature
 	}
 	hs := arrSort(sBV64, rs)
 	vc.ghostSorts[hn] = hs
-	return Val{T: rt, L: []string{sel(vc.heapTerm(st, hn, hs), ghostKey(args[0]))}}, nil
+	term := sel(vc.heapTerm(st, hn, hs), ghostKey(args[0]))
+	if name == "pos" && !vc.inlineMode {
+		// reader model invariant: positions are non-negative and streams are shorter than 2^50 bytes
+		vc.trusted[readerAssumption] = true
+		vc.script = append(vc.script, fmt.Sprintf("(assert (and (bvsle (_ bv0 64) %s) (bvslt %s (_ bv%d 64))))", term, term, uint64(1)<<50))
+	}
+	return Val{T: rt, L: []string{term}}, nil
 }
 
 // setGhost updates ghost state (used by extern handlers).
